@@ -8,27 +8,37 @@ from . import walkfam as W
 from . import c13, c20
 
 EXPLANATION = (
-    "NARROW: the exactly-once exactness law over all trees x bases x globs (pivot / anchor arithmetic, rooted and `..` "
-    "prefixes) is NOT decided.  Decided is the per-entry decision procedure of the glob walker, by evaluating the THIR of "
-    "its closure on every cell of {entry depth 0..3} x {number of component programs 0..3} x {own component matches its "
+    "NARROW: the exactly-once exactness law over all trees x bases x globs is not decided as a whole (walkdir's enumeration "
+    "is assumed).  Decided is the per-entry decision procedure of the glob walker, by evaluating the THIR of its closure on "
+    "every cell of {entry depth 0..3} x {number of component programs 0..3} x {relative segment starts with nothing / a "
+    "RootDir (rooted glob) / a ParentDir / a CurDir} x {components contributed by the prefix} x {own component matches its "
     "program or not} x {complete program matches or not}: (prune) a directory tree is discarded only when the entry's own "
-    "component fails the program of the same index - never on any other path; (gate) an entry is yielded only when the "
-    "complete program captures the root-relative path computed from (entry path, walkdir depth, pivot), and the yielded "
-    "GlobEntry stores that match and the same pivot; every other outcome is node residue; (stop) WalkProgram::compile "
-    "pushes programs for exactly the maximal boundary-free prefix of the components (a program pushed after a boundary "
-    "would be compared with the wrong component); (same-compiler) component programs go through the same compiler as "
-    "the complete program (C01 obligations apply); errors pass through untouched (C20.forward).")
-RULES = "C02.prune (GUARD), C02.gate (PROV+SIBLING), C02.stop (EFFECT), C02.same-compiler (WHO)"
+    "component fails the program of the same index, and a program is only ever compared with the component of its own "
+    "index; (gate) an entry is yielded only when the complete program captures the root-relative path computed from (entry "
+    "path, walkdir depth, pivot), and the yielded GlobEntry stores that match and the same pivot; every other outcome is "
+    "node residue; (relative) the root-relative path is the prefix as written in the glob followed by the traversed names, "
+    "for every shape of base directory (empty, `.`, relative, `./x`, absolute) x prefix (none, literal, rooted, with `..`, "
+    "with `.`) x traversal depth, by evaluating join_and_get_depth and split_at_depth on abstract component sequences; "
+    "(stop) WalkProgram::compile pushes programs for exactly the maximal boundary-free prefix of the components; "
+    "(same-compiler) component programs go through the same compiler as the complete program (C01 obligations apply); "
+    "(skip / isdir, shared with C13) a cancellation skips exactly the judged directory; errors pass through untouched "
+    "(C20.forward).")
+RULES = "C02.prune (GUARD), C02.gate (PROV+SIBLING), C02.relative (TABLE), C02.stop (EFFECT), C02.same-compiler (WHO), C13.skip, C13.isdir"
 
 
 def run(ctx):
     F = ctx.facts()
     R = ctx.report
     R.assume("walkdir yields every entry of a non-skipped directory exactly once, parents before children, with depth = number of components below the root")
-    R.undecided("exactness for rooted globs, `..` prefixes and pivot arithmetic (known deviations: rooted expressions stop "
-                "descending after one level, `../**` yields nothing); whether the entry's component at index d is the d-th "
-                "component of the relative path for every base (skip(depth) arithmetic)")
+    R.assume("std::path semantics as modelled in sa/rules/pathmodel.py (component-wise join / ancestors / strip_prefix; a `.` that is not the first component is not a component)")
+    R.undecided("that walkdir enumerates every entry exactly once; symbolic-link behaviours (C15); matching itself (C01)")
     rule_walker(F, R)
+    # pruning never loses a match only if a cancellation skips exactly the judged directory (C13.skip / C13.isdir)
+    c13.rule_skip(F, R)
+    c13.rule_isdir(F, R)
+    # the text the complete program is matched on is the prefix as written plus the traversed names (shared cells with C14)
+    from . import c14
+    c14.report_cells(F, R, "C02.relative", ("relative", "root"), 230)
     rule_stop(F, R, 3 if ctx.tier == "quick" else 4)
     rule_same_compiler(F, R)
 
@@ -37,16 +47,36 @@ def rule_walker(F, R):
     cl = c20.walker_closure(F)
     uv = c20.upvars(F, cl)
     n = 0
-    for d, k in itertools.product(range(0, 4), range(0, 4)):
+    # lead: the relative segment of a rooted glob is the whole path and starts with a RootDir component, which has no
+    # component program; extra: components of the relative segment that come from the glob's prefix (pivot)
+    # lead: the relative segment of a rooted glob is the whole path and starts with a RootDir component, which has no
+    # component program; a prefix starting with `..` or `.` gives a ParentDir / CurDir component, which is the glob's
+    # first component and has a program; extra: components of the relative segment that come from the prefix (pivot)
+    for d, k, lead, extra in itertools.product(range(0, 4), range(0, 4), ("", "RootDir", "ParentDir", "CurDir"), (0, 1)):
+        if lead and extra == 0:
+            continue     # these leads come from the glob's prefix
+        nn = d + extra   # index of the entry's own component among the components that have a program
         for own_match, complete in itertools.product((True, False), repeat=2):
-            comps = [Adt("std::path::Component", "Normal", {"0": Sym("c%d" % (i + 1))}) for i in range(d)]
+            first_normal = 2 if lead in ("ParentDir", "CurDir") else 1
+            comps = ([Adt("std::path::Component", lead, {})] if lead else []) + [
+                Adt("std::path::Component", "Normal", {"0": Sym("c%d" % i)}) for i in range(first_normal, nn + 1)]
             regex_calls = []
 
+            def as_os_str(I, a, fn, e):
+                c = strip(a[0])
+                if isinstance(c, Adt) and c.variant == "Normal":
+                    return c.fields["0"]
+                if isinstance(c, Adt) and c.variant in ("ParentDir", "CurDir"):
+                    return Sym("c1")
+                return I.top("as_os_str of %r" % (c,))
+
             def is_match(I, a, fn, e):
-                prog = strip(a[0])
-                cand = strip(a[1])
-                regex_calls.append((c13._n(prog), c13._n(cand)))
-                return own_match
+                prog = c13._n(strip(a[0]))
+                cand = c13._n(strip(a[1]))
+                regex_calls.append((prog, cand))
+                if cand != "cand(c%s)" % prog[1:]:
+                    return False            # a program compared with a component of another index (reported below)
+                return own_match if prog == "p%d" % nn else True   # ancestors were accepted when they were visited
 
             def captures(I, a, fn, e):
                 regex_calls.append(("captures:" + c13._n(a[0]), c13._n(a[1])))
@@ -58,6 +88,7 @@ def rule_walker(F, R):
                 "std::path::Path::components": lambda I, a, fn, e: models.iter_of(I, RList(list(comps)), by_ref=False) if c13._n(a[0]) == "relative" else I.top("components() of something else than the relative path: %s" % c13._n(a[0])),
                 "<CandidatePath as std::convert::From>::from": lambda I, a, fn, e: Sym("cand(%s)" % c13._n(a[0])),
                 "<CandidatePath as std::convert::AsRef>::as_ref": lambda I, a, fn, e: strip(a[0]),
+                "std::path::Component::<'a>::as_os_str": as_os_str,
                 "regex::Regex::is_match": is_match,
                 "regex::Regex::captures": captures,
                 "<capture::MatchedText as std::convert::From>::from": lambda I, a, fn, e: Sym("matched(%s)" % c13._n(a[0])),
@@ -77,7 +108,8 @@ def rule_walker(F, R):
                 return I.call_closure(clo, [c13.cancellation(), sep])
             cases = I.explore(run)
             n += 1
-            inst = "depth=%d/programs=%d/own=%s/complete=%s" % (d, k, own_match, complete)
+            inst = "depth=%d/programs=%d/own=%s/complete=%s" % (d, k, own_match, complete) + (
+                "" if not lead and not extra else "/lead=%s/prefix-components=%d" % (lead or "none", extra))
             if len(cases) != 1 or isinstance(cases[0].result, (Top, Panicked)):
                 R.fail("C02.prune", inst, "the walker closure could not be evaluated: %r" % ([c.result for c in cases][:2],), cl.where())
                 continue
@@ -87,9 +119,9 @@ def rule_walker(F, R):
             consulted = [x for x in regex_calls if not x[0].startswith("captures:")]
             gate = [x for x in regex_calls if x[0].startswith("captures:")]
             # reference
-            if 1 <= d <= k and not own_match:
+            if 1 <= nn <= k and not own_match:
                 want = ("tree", 1)
-            elif d < k:
+            elif nn < k:
                 want = ("node", 0)
             else:
                 want = ("filtrate", 0) if complete else ("node", 0)
@@ -97,11 +129,18 @@ def rule_walker(F, R):
             if (state, cancels) != want:
                 problems.append("outcome (%s, %d cancellation(s)), expected (%s, %d)" % (state, cancels, want[0], want[1]))
             # the only component program consulted is the one of the entry's own depth, against the entry's own component
-            want_consult = [("p%d" % d, "cand(c%d)" % d)] if 1 <= d <= k else []
-            if consulted != want_consult:
-                problems.append("component programs consulted: %s, expected %s (a program must be compared with the path component "
-                                "of the same index)" % (consulted, want_consult))
-            if want[0] == "filtrate" or (want == ("node", 0) and d >= k):
+            # (components that ancestors were already judged on may be re-checked or skipped: both are correct)
+            misaligned = [x for x in consulted if x[1] != "cand(c%s)" % x[0][1:]]
+            own = ("p%d" % nn, "cand(c%d)" % nn)
+            if misaligned:
+                problems.append("component program(s) compared with a path component of another index: %s (a program must be "
+                                "compared with the normal component of the same index; consulted: %s)" % (misaligned, consulted))
+            elif (own in consulted) != (1 <= nn <= k):
+                problems.append("component programs consulted: %s, expected the entry's own component %s to be %s" % (
+                    consulted, own, "judged" if 1 <= nn <= k else "absent (there is no program of that index)"))
+            elif any(int(x[0][1:]) > nn for x in consulted):
+                problems.append("component programs consulted beyond the entry's own component: %s" % consulted)
+            if want[0] == "filtrate" or (want == ("node", 0) and nn >= k):
                 if gate != [("captures:complete", "cand(relative)")]:
                     problems.append("the yield gate consulted %s, expected the complete program on the root-relative path" % gate)
             elif gate:
@@ -121,7 +160,7 @@ def rule_walker(F, R):
                 R.fail("C02.prune" if want[0] == "tree" or state == "tree" else "C02.gate", inst, "; ".join(problems), cl.where())
             else:
                 R.ok("C02.prune" if want[0] == "tree" else "C02.gate", inst, "(%s, %d cancellation(s))" % want, cl.where(), sample=(n % 9 == 0))
-    R.floor("C02.gate", "walker cells", n, 64)
+    R.floor("C02.gate", "walker cells", n, 320)
     # three yield gates agree: every GlobEntry construction site is inside the walker closure
     sites = []
     for item in F.items.values():
